@@ -20,6 +20,12 @@ from ..report import RuleContext
 
 TRUTH_DUNDERS = ('__bool__', '__len__')
 
+# Sites where "None or empty" is deliberately (and harmlessly) one case; each read and confirmed.  One named expression each.
+EXEMPT = {
+    'RawModel.detach: self.token_store': 'TokenStore has __len__; for an empty store the early `return []` is what list(store) yields anyway',
+    'RawModel.tokens: self.token_store': 'TokenStore has __len__; for an empty store the early `return []` is what iter() over no tokens yields anyway',
+}
+
 
 class Ty:
     __slots__ = ('classes', 'optional')
@@ -184,12 +190,24 @@ class Typer:
             if isinstance(s, FuncInfo) and s.kind in ('method', 'classmethod', 'staticmethod'):
                 return self.ann(s.module, s.node.returns, c)
             return None
-        if isinstance(e, ast.Call) and isinstance(e.func, ast.Name):
+        if isinstance(e, ast.Call) and isinstance(e.func, (ast.Name, ast.Attribute)):
             s = self.p.resolve_expr(fn.module, e.func)
             if isinstance(s, FuncInfo) and s.cls is None:
                 return self.ann(s.module, s.node.returns)
+            if isinstance(s, ClassInfo):
+                return Ty(frozenset([s]))
             return None
         return None
+
+    @staticmethod
+    def _cache_lookup(v: ast.AST) -> bool:
+        """`d.get(k)` / `d.get(k, None)` / `getattr(o, n, None)`: yields the cached object or None"""
+        if not isinstance(v, ast.Call):
+            return False
+        none2 = len(v.args) >= 2 and isinstance(v.args[-1], ast.Constant) and v.args[-1].value is None
+        if isinstance(v.func, ast.Attribute) and v.func.attr == 'get' and (len(v.args) == 1 or (len(v.args) == 2 and none2)):
+            return True
+        return isinstance(v.func, ast.Name) and v.func.id == 'getattr' and len(v.args) == 3 and none2
 
     def locals_of(self, fn: FuncInfo) -> dict[str, Optional[Ty]]:
         """names bound exactly once (assignment or walrus) to a typed expression; parameters are typed by annotation"""
@@ -223,7 +241,15 @@ class Typer:
                 local[name] = None
                 continue
             tys = [self.expr(fn, v, {}) for v in vals]
-            if any(t is None for t in tys):
+            lookups = [v for v, t in zip(vals, tys) if t is None and self._cache_lookup(v)]
+            if lookups and len(lookups) < len(vals) and all(t is not None or self._cache_lookup(v) for v, t in zip(vals, tys)):
+                # memo idiom: x = cache.get(k); if <test>: x = Build(...); cache[k] = x  -- x is Optional[Build]
+                out = Ty(frozenset(), True)
+                for t in tys:
+                    if t is not None:
+                        out = out | t
+                local[name] = out
+            elif any(t is None for t in tys):
                 local[name] = None
             else:
                 out = tys[0]
@@ -291,14 +317,10 @@ def truthy_definers(p: Program) -> dict[int, tuple[ClassInfo, str, ClassInfo]]:
 
 def rule_presence_truth(ctx: RuleContext, p: Program, rid: str, minimum: int = 60) -> None:
     ctx.rule(rid, 'every expression of type Optional[C] that is tested by truthiness (if / and / or / not / conditional expression) '
-                  'has only model classes C (RawModel hierarchy, including their repository subclasses) without __bool__ / __len__, so that the '
-                  'test means "is present"; types come from annotations, descriptor type arguments and single local bindings')
+                  'has only classes C (including their repository subclasses) without __bool__ / __len__, so that the test means "is present" '
+                  '(two named store-emptiness sites exempt); types come from annotations, descriptor type arguments and single local bindings')
     ty = Typer(p)
-    raw_model = p.cls('RawModel', 'models.base')
-    # scope: child slots of the syntax tree (models and tokens).  Containers tested for emptiness-or-absence are out of scope:
-    # the two sites on this tree (`if not self.token_store` in RawModel.detach / .tokens, TokenStore.__len__) return the
-    # empty list, which is also what an empty store yields, so conflating None and empty changes nothing there.
-    bad = {k: v for k, v in truthy_definers(p).items() if v[0].is_subclass_of(raw_model)}
+    bad = truthy_definers(p)
     n_typed = 0
     n_sites = 0
     for m in p.modules.values():
@@ -317,7 +339,8 @@ def rule_presence_truth(ctx: RuleContext, p: Program, rid: str, minimum: int = 6
                 t = ty.expr(fn, e, local)
                 if t is None or not t.optional or not t.classes:
                     continue
-                if not any(c.is_subclass_of(raw_model) for c in t.classes):
+                if (site_key := f'{fn.qualname}: {norm(e)}') in EXEMPT:
+                    ctx.ok(rid, f'{m.name.split(".", 1)[-1]}:{site_key}', 'exempt: ' + EXEMPT[site_key], nontrivial=False)
                     continue
                 n_typed += 1
                 offenders = []
